@@ -112,7 +112,7 @@ Proof.
   - left. unfold mark_closed. destruct (mem_n c (st_term st)); reflexivity.
   - left. unfold subscribe. destruct (session_of st c) as [[k s]|]; [|reflexivity]. destruct (negb _); [reflexivity|]. destruct k; reflexivity.
   - left. unfold unsubscribe. destruct (session_of st c) as [[k s]|]; [|reflexivity]. destruct k; reflexivity.
-  - left. rewrite publish_unfold. destruct (negb _ && _); reflexivity.
+  - left. rewrite publish_unfold. destruct (pub_stuck _ _ _); reflexivity.
   - left. unfold dequeue. destruct (session_of st c) as [[k s]|]; [|reflexivity].
     destruct t; [destruct (s_tq s)|destruct (s_sq s)]; try reflexivity; destruct k; reflexivity.
   - unfold terminate. destruct (alookup N.eqb c (st_cid st)) as [id|]; [|left; reflexivity].
@@ -137,7 +137,7 @@ Proof.
   - unfold mark_closed. destruct (mem_n c (st_term st)) eqn:T; [|left; reflexivity]. right. exists c. repeat split. exact T.
   - left. unfold subscribe. destruct (session_of st c) as [[k s]|]; [|reflexivity]. destruct (negb _); [reflexivity|]. destruct k; reflexivity.
   - left. unfold unsubscribe. destruct (session_of st c) as [[k s]|]; [|reflexivity]. destruct k; reflexivity.
-  - left. rewrite publish_unfold. destruct (negb _ && _); reflexivity.
+  - left. rewrite publish_unfold. destruct (pub_stuck _ _ _); reflexivity.
   - left. unfold dequeue. destruct (session_of st c) as [[k s]|]; [|reflexivity].
     destruct t; [destruct (s_tq s)|destruct (s_sq s)]; try reflexivity; destruct k; reflexivity.
   - left. unfold terminate. destruct (alookup N.eqb c (st_cid st)) as [id|]; [|reflexivity].
@@ -204,7 +204,7 @@ Proof.
   - unfold mark_closed. destruct (mem_n c (st_term st)); exact P.
   - unfold subscribe. destruct (session_of st c) as [[k s]|]; [|exact P]. destruct (negb _); [exact P|]. destruct k; exact P.
   - unfold unsubscribe. destruct (session_of st c) as [[k s]|]; [|exact P]. destruct k; exact P.
-  - rewrite publish_unfold. destruct (negb _ && _); exact P.
+  - rewrite publish_unfold. destruct (pub_stuck _ _ _); exact P.
   - unfold dequeue. destruct (session_of st c) as [[k s]|]; [|exact P].
     destruct t; [destruct (s_tq s)|destruct (s_sq s)]; try exact P; destruct k; exact P.
   - unfold terminate. destruct (alookup N.eqb c (st_cid st)) as [id|]; [|exact P].
@@ -270,7 +270,7 @@ Proof.
     cbn [step]. unfold mark_closed. destruct (mem_n c (st_term st)); exact P.
   - cbn [step]. unfold subscribe. destruct (session_of st c) as [[k s]|]; [|exact P]. destruct (negb _); [exact P|]. destruct k; exact P.
   - cbn [step]. unfold unsubscribe. destruct (session_of st c) as [[k s]|]; [|exact P]. destruct k; exact P.
-  - cbn [step]. rewrite publish_unfold. destruct (negb _ && _); exact P.
+  - cbn [step]. rewrite publish_unfold. destruct (pub_stuck _ _ _); exact P.
   - cbn [step]. unfold dequeue. destruct (session_of st c) as [[k s]|]; [|exact P].
     destruct t; [destruct (s_tq s)|destruct (s_sq s)]; try exact P; destruct k; exact P.
   - cbn [step]. unfold terminate. destruct (alookup N.eqb c (st_cid st)) as [id|]; [|exact P].
@@ -443,7 +443,7 @@ Proof.
   - unfold mark_closed. destruct (mem_n c (st_term st)); repeat split.
   - unfold subscribe. destruct (session_of st c) as [[k s]|]; [|repeat split]. destruct (negb _); [repeat split|]. destruct k; repeat split.
   - unfold unsubscribe. destruct (session_of st c) as [[k s]|]; [|repeat split]. destruct k; repeat split.
-  - rewrite publish_unfold. destruct (negb _ && _); repeat split.
+  - rewrite publish_unfold. destruct (pub_stuck _ _ _); repeat split.
   - unfold dequeue. destruct (session_of st c) as [[k s]|]; [|repeat split].
     destruct t; [destruct (s_tq s)|destruct (s_sq s)]; try (repeat split; fail); destruct k; repeat split.
 Qed.
@@ -743,7 +743,7 @@ Proof.
     destruct (mem_n (p_old p) (st_closed st)); [|cbn [snd]; congruence].
     apply (setup_finish_subs st (p_conn p) (p_id p) (p_clean p) k s s' (proj1 (T2 p eq_refl)) G).
   - unfold mark_closed. destruct (mem_n c (st_term st)); cbn [snd]; intros G'; destruct k; cbn [get_session st_temps st_stored] in *; congruence.
-  - intros G'. destruct (negb (pub_err st c m) && pub_blk st c m) eqn:Hnb.
+  - intros G'. destruct (pub_stuck st c m) eqn:Hnb.
     + rewrite publish_unfold, Hnb in G'. cbn [snd] in G'. congruence.
     + rewrite (get_session_published st c m got k Hnb), G in G'. cbn [option_map] in G'. injection G' as <-. apply deliver_subs.
   - unfold dequeue. destruct (session_of st c) as [[k0 s0]|] eqn:S; [|cbn [snd]; congruence].
